@@ -658,9 +658,13 @@ func (index *setIndex) CheckIntegrity(ctx MutateContext, fix bool, errorSink fun
 				}
 			} else {
 				// If key has no values, delete the key
-				if err := cursor.Delete(); err != nil {
-					return err
+				if fix {
+					if err := cursor.Delete(); err != nil {
+						return err
+					}
 				}
+				errorSink(errors.Errorf("for index on %s.%s, index value %s has no values bucket",
+					index.symbol.GetStore().GetEntityType(), index.GetSymbol().GetName(), string(key)), fix)
 			}
 		}
 
